@@ -90,4 +90,7 @@ var Presets = map[string]*Config{
 			Fuel:    map[string]string{},
 		}
 	}(),
+	"proxy": func() *Config {
+		return &Config{Lib: bytesLib(), Globals: map[string]Global{}, Structs: map[string]*Struct{}, Fuel: map[string]string{}}
+	}(),
 }
